@@ -790,14 +790,20 @@ static var Zip_Iter_Init(var self) {
   return values;
 }
 
+static size_t Zip_Len(var self);
+
 static var Zip_Iter_Last(var self) {
   struct Zip* z = self;
   struct Tuple* values = z->values;
   struct Tuple* iters = z->iters;
   size_t num = len(iters);
-  if (num is 0) { return Terminal; }
+  size_t mlen = Zip_Len(self);
+  if (num is 0 or mlen is 0) { return Terminal; }
   for (size_t i = 0; i < num; i++) {
     var last = iter_last(iters->items[i]);
+    for (size_t j = len(iters->items[i]); j > mlen; j--) {
+      last = iter_prev(iters->items[i], last);
+    }
     if (last is Terminal) { return Terminal; }
     values->items[i] = last;
   }
